@@ -321,18 +321,18 @@ def plot_geo2(col, site, setup, t, out, rep):
     phi = np.array([[phi_by_name[nm]] for nm in names])
     res = BaseResult(Fn=np.array([1.0]), Phi=phi)
     fig, ax = setup.plot_mode_geo2_mpl(res, mode_nr=1, scaleF=1, color="blue")
-    pts = None
-    for c in ax.collections:
+    clouds = []
+    for c in ax.collections:                      # (background nodes, when given, are a scatter collection of their own)
         if hasattr(c, "_offsets3d"):
             x, y, z = c._offsets3d
-            pts = np.column_stack([np.asarray(x, dtype=float), np.asarray(y, dtype=float), np.asarray(z, dtype=float)])
-            break
+            clouds.append(np.column_stack([np.asarray(x, dtype=float), np.asarray(y, dtype=float), np.asarray(z, dtype=float)]))
     plt.close("all")
     npts = len(t["map"])
     base = np.array([[5.0 * p, 1.0 + p, 2.0 * p] for p in range(npts)])
     exp = base + np.array(out["geo"]["shown"], dtype=float)
-    if pts is None or pts.shape != exp.shape or not np.allclose(pts, exp, rtol=0, atol=1e-12):
-        col.violation(f"{site}/displaced_points", f"{site}: displaced points {None if pts is None else pts.tolist()} expected {exp.tolist()}", rep)
+    if not any(pts.shape == exp.shape and np.allclose(pts, exp, rtol=0, atol=1e-12) for pts in clouds):
+        col.violation(f"{site}/displaced_points", f"{site}: point clouds drawn {[p.tolist() for p in clouds]}, none is the displaced points "
+                      f"{exp.tolist()}", rep)
 
 
 ARRAY_OPT2 = {"sensors lines", "sensors surfaces", "BG nodes", "BG lines", "BG surfaces"}
@@ -483,7 +483,7 @@ def run(ctx):
             ctx.merge(col)
     # ---- geo2, single setup
     cells = '{<<"s", 1>>, <<"s", 2>>, <<"c", 1>>, <<"z">>, <<"n">>}'
-    opt2 = [["constraints"], ["constraints", "sensors sign"], ["constraints", "sensors sign", "sensors lines", "sensors surfaces", "BG lines"], []]
+    opt2 = [["constraints"], ["constraints", "sensors sign"], ["constraints", "sensors sign", "sensors lines", "sensors surfaces", "BG nodes", "BG lines", "BG surfaces"], []]
     g2 = ("{[n |-> 2, form |-> f, order |-> o, map |-> m, cstr |-> c, sign |-> s, fault |-> \"none\", opt |-> op, lines |-> <<<<1, 2>>>>, lays |-> <<>>] : "
           "f \\in {\"row\", \"list\"}, o \\in {<<1, 2>>, <<2, 1>>}, m \\in {<<r1, r2>> : r1 \\in [1..3 -> %s], r2 \\in ROWS2A}, "
           "c \\in {<<<<1, -1>>>>, <<<<2, 0>>>>}, s \\in {<<<<1, 1, 1>>, <<1, 1, 1>>>>, <<<<-1, 0, 1>>, <<1, -1, 0>>>>}, op \\in %s}"
